@@ -61,6 +61,48 @@ def check_snapshot(snap):
     return W is not None and len(col) > W
 
 
+def check_layers(matcher, what):
+    """Post-hoc form of the same predicate on every non-emitting layer (they are pruned by the same rule but never pass
+    through the tqdm iterator): among the live entries of a layer, the set marked for expansion (delayed <= expand_now) must be an
+    upper set by probability and must not exceed the width (plus ties). No lower bound: the pruning threshold inherited from the
+    next observation may legitimately shrink it. Only evaluated after the fresh run (round 0): in later rounds a layer that is not
+    re-processed keeps its marks of the earlier round, so 'delayed <= expand_now' no longer means 'was expanded' there."""
+    W, now = matcher.max_lattice_width, matcher.expand_now
+    cut = False
+    for i, col in matcher.lattice.items():
+        for depth in range(1, len(col.o)):
+            ents = [m for m in col.o[depth].values() if not m.stop]
+            if not ents:
+                continue
+            live = [m for m in ents if m.delayed <= now]
+            post = [m for m in ents if m.delayed > now]
+            if live and post:
+                best = max(post, key=lambda m: m.logprob)
+                worst = min(live, key=lambda m: m.logprob)
+                if best.logprob > worst.logprob:
+                    raise Violation("layer.order", f"{what}: column {i} depth {depth} (width {W}): postponed candidate {best.key} "
+                                                   f"({best.logprob}) is more probable than expanded candidate {worst.key} ({worst.logprob})")
+            if W is not None and len(ents) > W:
+                srt = sorted((m.logprob for m in ents), reverse=True)
+                allowed = sum(1 for v in srt if v >= srt[W - 1])
+                if len(live) > allowed:
+                    raise Violation("layer.too-many", f"{what}: column {i} depth {depth}: {len(live)} candidates expanded, at most {allowed} "
+                                                      f"(width {W} plus ties) allowed")
+                cut = True
+    return cut
+
+
+def postponed_ne_entry(matcher):
+    """Root cause of open finding KF-C07-REACT: a live entry in a non-emitting layer (depth >= 1) that pruning postponed at some
+    point (delayed > 0; in an unpruned run every entry has delayed == 0). Expansion rounds only restart the non-emitting search
+    from emitting entries scheduled for the current round, so such an entry never gets its turn."""
+    for _i, col in matcher.lattice.items():
+        for depth in range(1, len(col.o)):
+            if any((not m.stop) and m.delayed > 0 for m in col.o[depth].values()):
+                return True
+    return False
+
+
 def summary(matcher, res, n):
     states, idx = res
     lb = matcher.lattice_best or []
@@ -100,10 +142,16 @@ def check_case(case, ctx):
             if known() and r[0] == r_un[0]:
                 classes.append("excluded:KF-C07-NE")
                 return
+            if (ne and what.startswith("after widening") and r[0] < r_un[0] and postponed_ne_entry(pr) and
+                    ctx.known("KF-C07-REACT", "candidates postponed inside a non-emitting layer are never re-activated by "
+                                              "increase_max_lattice_width: the widened run stays shorter than the unpruned run")):
+                classes.append("excluded:KF-C07-REACT")
+                return
             raise Violation("wide-differs", f"{what} width {w} >= {ncand} candidates: (matched, logprob) = {r}, unpruned run {r_un}")
 
     r = summary(pr, base.pkg(pr.match, path, tqdm=tap), n)
     hist.append((widths[0], r))
+    layer_cut = check_layers(pr, f"fresh run with width {widths[0]}")
     versus_unpruned(widths[0], r, "fresh run with")
     for w in widths[1:]:
         r2 = summary(pr, base.pkg(pr.increase_max_lattice_width, w, tqdm=tap), n)
@@ -119,6 +167,8 @@ def check_case(case, ctx):
         cut |= check_snapshot(s)
     if cut:
         classes.append("pruning-cut")
+    if layer_cut:
+        classes.append("pruning-cut-in-ne-layer")
     if r_un[0] < n:
         classes.append("early-stop")
     ctx.record(case, cut, sorted(set(classes)), {"unpruned": r_un, "history": hist, "candidates": ncand})
